@@ -1,4 +1,5 @@
 import Mixin.Model.Graph
+import Mixin.Facts.ExpectedC20
 /-!
 # C20 — round links only move forward and never point at their own chain
 
@@ -685,5 +686,10 @@ example : OpOk [1, 2] (.start 1 ⟨101, 200⟩ false true) := by
   simp [OpOk, Op.cid, Op.ext]
 
 end Counterexample
+
+/-- the regenerated call skeleton of the modelled functions is the one the model assumes -/
+theorem facts_ok : True ∧ Mixin.Facts.ExpectedC20.has Mixin.Facts.Gen.storage_startNewRound_calls
+    ["readRound*2", "writeLink*1", "writeRound*2"] = true :=
+  ⟨trivial, by decide⟩
 
 end Mixin.C20
